@@ -147,8 +147,51 @@ def check_case(ctx, case, max_runs):
             ctx.count("choice_trees_exhausted")
 
 
+def monitored_repo_suite(ctx):
+    """Realistic workload (thorough): the repository's own test-suite, run on a scratch copy of the working tree with the
+    C01 invariants attached to every election it constructs (vk/pytest_plugin.py)."""
+    import json
+    import os
+    import shutil
+    import subprocess
+    from .. import env
+
+    work = os.path.join(env.workdir(), "repo_copy")
+    shutil.rmtree(work, ignore_errors=True)
+    os.makedirs(work)
+    repo = os.path.dirname(env.REPO_SRC)
+    for d in ("src", "tests"):
+        shutil.copytree(os.path.join(repo, d), os.path.join(work, d))
+    for f in ("conftest.py", "pyproject.toml", "pytest.ini", "setup.cfg"):
+        if os.path.exists(os.path.join(repo, f)):
+            shutil.copy(os.path.join(repo, f), work)
+    out = os.path.join(work, "plugin_out.jsonl")
+    e = dict(os.environ, PYTHONPATH=os.pathsep.join([os.path.join(work, "src"), env.SHIMS, env.VERIF]), VK_PLUGIN_OUT=out,
+             PYTHONDONTWRITEBYTECODE="1", PYTHONHASHSEED="0", MPLBACKEND="Agg")
+    try:
+        r = subprocess.run([env.PYTHON, "-m", "pytest", "-q", "-p", "no:cacheprovider", "-p", "vk.pytest_plugin", "-n", "4",
+                            "tests/elections", "tests/test_pref_profile.py", "tests/test_e2e.py", "tests/test_utils.py"],
+                           cwd=work, env=e, capture_output=True, text=True, timeout=2400)
+        ctx.count("repo_suite_exit_%d" % r.returncode)
+        recs = [json.loads(ln) for ln in open(out)] if os.path.exists(out) else []
+        for rec in recs:
+            if rec["kind"] == "stats":
+                for k in ("elections_observed", "rounds_checked", "condense_observed"):
+                    ctx.count("repo_suite_" + k, rec[k])
+            elif rec["kind"] == "violation":
+                ctx.fail(f"{rec['rule']} (constructed by the repository's test {rec['test']}): {rec['what']}",
+                         {"kind": "repo_suite", "test": rec["test"]}, rec.get("detail"))
+            else:
+                ctx.count("repo_suite_harness_errors")
+        ctx.case({"kind": "repo_suite", "tests": "tests/elections + profile/utils/e2e"}, nontrivial=True)
+    finally:
+        shutil.rmtree(env.workdir(), ignore_errors=True)
+
+
 def run(ctx):
     max_runs = 4 if ctx.quick else 24
+    if not ctx.quick and ctx.shard == ctx.nshards - 1:
+        ctx.guard("monitored_repo_suite", monitored_repo_suite, ctx)
     if ctx.shard == 0:
         for c in cases.directed_cases():
             check_case(ctx, c, max_runs)
@@ -164,4 +207,6 @@ def run(ctx):
 
 
 def replay(ctx, case):
+    if case.get("kind") == "repo_suite":
+        return monitored_repo_suite(ctx)
     check_case(ctx, case, 1)
